@@ -22,6 +22,7 @@ abbrev Name := String
 
 inductive Kind where
   | float | int | bool | str
+  | obj     -- dtype `object` (a model's `trace` series): elements are opaque tokens, stored as they are
   deriving DecidableEq, Repr, Inhabited
 
 /-- NumPy dtype restricted to the four kinds of the property; `width` is the `<U…` width (0 otherwise). -/
@@ -164,10 +165,11 @@ def conv (d : Dtype) (v : Val) : Except Exc Val :=
   | .int => convInt v
   | .bool => .ok (convBool v)
   | .str => .ok (.s (truncStr d.width (strOf v)))
+  | .obj => .ok v
 
 /-- Width NumPy reserves when something of this kind becomes a string. -/
 def strWidthOfKind : Kind → Nat
-  | .float => 32 | .int => 21 | .bool => 5 | .str => 0
+  | .float => 32 | .int => 21 | .bool => 5 | .str => 0 | .obj => 0
 
 def valStrWidth : Val → Nat
   | .s v => v.length
@@ -198,6 +200,7 @@ def astypeDtype (k : Kind) (src : Dtype) : Dtype :=
   | .float => f8
   | .int => i8
   | .bool => b1
+  | .obj => ⟨.obj, 0⟩
   | .str => match src.kind with
     | .str => src
     | sk => uN (strWidthOfKind sk)
@@ -468,7 +471,8 @@ structure Store where
   spanKind : SpanKind
   getLoc : List (Nat × Loc)          -- pandas only: recorded `get_loc` per label class
   vars : List (Name × Series)        -- `index` order; `__dict__['_' + name]`
-  hidden : Nat                       -- leading entries of `index` not in `names` (ModelInterface: status, iterations)
+  nonNames : List Name               -- container variables that are not model variables: in `index`, not in `names`
+                                     -- (ModelInterface: status, iterations; TracerMixin: trace — wherever they sit)
   attrs : List Name                  -- `_attributes`
   strict : Bool
   defaultKind : Option Kind          -- ModelInterface.add_variable: `dtype=None` means `self.dtype`
@@ -480,7 +484,7 @@ structure Store where
 
 def Store.n (s : Store) : Nat := s.span.length
 def Store.index (s : Store) : List Name := s.vars.map (·.1)
-def Store.names (s : Store) : List Name := s.index.drop s.hidden
+def Store.names (s : Store) : List Name := s.index.filter (fun x => !s.nonNames.contains x)
 def Store.get (s : Store) (name : Name) : Option Series := s.vars.lookup name
 
 def setVar : List (Name × Series) → Name → Series → List (Name × Series)
@@ -778,7 +782,7 @@ def size (s : Store) : Nat := s.names.length * s.n + s.extraSize
 
 def itemSize (d : Dtype) : Nat :=
   match d.kind with
-  | .float => 8 | .int => 8 | .bool => 1 | .str => 4 * d.width
+  | .float => 8 | .int => 8 | .bool => 1 | .str => 4 * d.width | .obj => 8
 
 def nbytes (s : Store) : Nat :=
   ((s.vars.map fun p => itemSize p.2.dtype * p.2.data.length).foldl (· + ·) 0) + s.extraBytes
@@ -904,6 +908,11 @@ def getAttr (s : Store) (name : Name) : ReadResult :=
     | none => .raised (.attribute none)
     | some ser => .array ser.shape ser.data
 
+/-- `name in obj`: membership of the *model variables* `names` (for a plain container `names = index`; a model's
+    `status` / `iterations` / `trace` are container variables — in `index`, addressable by every access path — but
+    not in `names`). -/
+def contains (s : Store) (name : Name) : Bool := s.names.contains name
+
 /-- `obj[name][i]` -/
 def getPos (s : Store) (name : Name) (i : Int) : ReadResult :=
   match s.get name with
@@ -939,7 +948,7 @@ def getLabelSlice (s : Store) (name : Name) (a b : Option Nat) (step : Option In
 
 /-- A fresh `VectorContainer(span, strict=…)`. -/
 def init (span : List Nat) (kind : SpanKind) (strict : Bool) : Store :=
-  { span := span, spanKind := kind, getLoc := [], vars := [], hidden := 0,
+  { span := span, spanKind := kind, getLoc := [], vars := [], nonNames := [],
     attrs := ["_attributes", "span", "index", "_strict"], strict := strict, defaultKind := none,
     extraSize := 0, extraBytes := 0 }
 
